@@ -47,6 +47,8 @@ package runs
 
 // ---- C07 / C20: history token for saved results (argument values as passed, before truncation)
 //@ pure resultSaved(r *run, name string, value string, category string, input string, node flows.NodeUUID) bool
+// C18: ... and the localized category name it was saved with
+//@ pure resultLocalized(r *run, name string, localized string) bool
 
 // C05: the saved value is cut to the configured maximum
 //@ func (r *run) SaveResult
@@ -56,6 +58,7 @@ package runs
 //@   ensures [truncated] runes(result.Value) <= r.session.(*engine.session).engine.(*engine.engine).options.MaxResultChars
 //@   ensures [kept_if_short] old(runes(result.Value)) <= r.session.(*engine.session).engine.(*engine.engine).options.MaxResultChars ==> result.Value == old(result.Value)
 //@   records resultSaved(r, old(result.Name), old(result.Value), old(result.Category), old(result.Input), old(result.NodeUUID))
+//@   records resultLocalized(r, old(result.Name), old(result.CategoryLocalized))
 
 // ---- C01: exited_on is set exactly for completed, failed and expired runs
 //@ pred runWF(r *run) bool := (r.exitedOn != nil) <==> (r.status == flows.RunStatusCompleted || r.status == flows.RunStatusFailed || r.status == flows.RunStatusExpired)
